@@ -200,6 +200,12 @@ class Client:
         return set()
 
 
+_STEPS = 0
+_T0 = None
+TIME_BUDGET = int(__import__('os').environ.get('VERIF_TIME_BUDGET', '90'))
+STEP_BUDGET = int(__import__('os').environ.get('VERIF_STEP_BUDGET', '400000'))
+
+
 class Flow:
     def __init__(self, client: Client):
         self.c = client
@@ -217,6 +223,21 @@ class Flow:
         for st in body:
             if not cur:
                 break
+            # a budget for the whole process: statement x state steps.  A function whose paths multiply beyond it (helpers with
+            # many independent branches expanded inside loops) is not analysed further -- the answer is "cannot decide", fast
+            global _STEPS, _T0
+            _STEPS += len(cur)
+            if _T0 is None:
+                _T0 = __import__('time').time()
+            elif (_STEPS & 63) == 0 and __import__('time').time() - _T0 > TIME_BUDGET:
+                from .srcmodel import AnalysisError
+                raise AnalysisError('path exploration took more than %d s (at line %d): the paths of this function, with the helpers '
+                                    'expanded in it, multiply beyond what the analysis follows' % (TIME_BUDGET, getattr(st, 'lineno', 0)))
+            if _STEPS > STEP_BUDGET:
+                from .srcmodel import AnalysisError
+                raise AnalysisError('path exploration exceeded its budget of %d statement x state steps at line %d: the paths of this '
+                                    'function (with the helpers expanded in it) multiply beyond what the analysis follows'
+                                    % (STEP_BUDGET, getattr(st, 'lineno', 0)))
             o = self._stmt(st, cur)
             out.absorb(o)
             cur = o.fall
